@@ -350,7 +350,30 @@ func c19Producers(r *Run, db *SiteDB) {
 	}
 	// staticfs: Walk returns a.qids[name]; Readdir passes a.qids
 	if w := r.L.Func("fsimpl/staticfs", "dir.Walk"); w != nil {
-		okW := strings.Contains(norm(w.Decl.Body), ".a.qids[names[0]]")
+		// the successful single-name walk returns {qids[K]} together with files[K], K the walked name
+		okW := false
+		wres := newResolver(r.L, w.Pkg.TypesInfo, w.Decl)
+		namesParam := ""
+		if ps := w.Decl.Type.Params.List; len(ps) == 1 && len(ps[0].Names) == 1 {
+			namesParam = ps[0].Names[0].Name
+		}
+		ast.Inspect(w.Decl.Body, func(n ast.Node) bool {
+			ret, ok := n.(*ast.ReturnStmt)
+			if !ok || len(ret.Results) != 3 {
+				return true
+			}
+			cl, ok := unparen(ret.Results[0]).(*ast.CompositeLit)
+			if !ok || len(cl.Elts) != 1 {
+				return true
+			}
+			q := strings.ReplaceAll(wres.str(cl.Elts[0]), " ", "")
+			f := strings.ReplaceAll(wres.str(ret.Results[1]), " ", "")
+			key := "[" + namesParam + "[0]]"
+			if strings.HasSuffix(q, ".a.qids"+key) && strings.HasSuffix(f, ".a.files"+key) {
+				okW = true
+			}
+			return true
+		})
 		r.check(okW, "r5", "staticfs: Walk reports the QID table's entry", w.Decl.Pos(), "d.a.qids[name]", "staticfs Walk does not take the QID from the attacher's table")
 	}
 	if rd := r.L.Func("fsimpl/staticfs", "dir.Readdir"); rd != nil {
